@@ -1,1 +1,4 @@
 pub mod c13;
+pub mod c06;
+pub mod c07;
+pub mod c17;
